@@ -405,9 +405,11 @@ func AddRecord(name, typ, data)
           && deser_RecordState(old(store).get(skey(old(store), rprefix(tokenOf(old(store), name), name, typ), j))).Type == typ
           && deser_RecordState(old(store).get(skey(old(store), rprefix(tokenOf(old(store), name), name, typ), j))).Data == data)
   loop 0
-    invariant id == $it.pos && store == old(store) && notifs == old(notifs)
-    invariant forall j Int {$it.key(j)} :: 0 <= j && j < $it.pos ==>
-        !(deser_RecordState(store.get($it.key(j))).Name == name && deser_RecordState(store.get($it.key(j))).Type == typ && deser_RecordState(store.get($it.key(j))).Data == data)
+    invariant id == $it.pos && store == old(store) && notifs == old(notifs) && recordsKey == rprefix(tokenOf(old(store), name), name, typ)
+    invariant forall j Int {skey(store, rprefix(tokenOf(old(store), name), name, typ), j)} :: 0 <= j && j < $it.pos ==>
+        !(deser_RecordState(store.get(skey(store, rprefix(tokenOf(old(store), name), name, typ), j))).Name == name
+          && deser_RecordState(store.get(skey(store, rprefix(tokenOf(old(store), name), name, typ), j))).Type == typ
+          && deser_RecordState(store.get(skey(store, rprefix(tokenOf(old(store), name), name, typ), j))).Data == data)
 
 // ---- reading and deleting ----------------------------------------------------------------------------------------
 // records of (token, name) are walked in key order: by type byte, then by index. Schema of the store (established by
